@@ -188,28 +188,47 @@ Proof.
     congruence.
 Qed.
 
-(** the spec's error is the loop result in registration order *)
-Lemma spec_under_canonical : forall c a h, spec_under c a h = miss_result c (c_drv c) a h.
+Lemma filter_rev_own : forall {A} (f : A -> bool) (l : list A), filter f (rev l) = rev (filter f l).
+Proof.
+  intros A f l. induction l as [|x l IH]; [reflexivity|].
+  simpl. rewrite filter_app, IH. simpl. destruct (f x); simpl; [reflexivity|apply app_nil_r].
+Qed.
+
+Lemma last_rev_hd : forall {A} (l : list A) (d : A), last (rev l) d = hd d l.
+Proof.
+  intros A l d. destruct l as [|x l]; [reflexivity|]. simpl. apply last_last.
+Qed.
+
+(** the spec's error is the loop result when the drivers are visited in
+    reverse registration order (highest id first, lowest id last) *)
+Lemma spec_under_canonical : forall c a h, spec_under c a h = miss_result c (rev (c_drv c)) a h.
 Proof.
   intros c a h. unfold spec_under, spec_valid, miss_result, enabled_drivers.
   set (val := fun d => c_val c d a).
   change (filter (fun p => is_enable h (snd p)) (c_drv c)) with (filter (en_b h) (c_drv c)).
   change (fun p : N * Z => is_nil (c_val c (fst p) a)) with (acc_b val).
   change (fun p : N * Z => c_val c (fst p) a) with (fun p : N * Z => val (fst p)).
+  assert (Ex : existsb (acc_b val) (filter (en_b h) (rev (c_drv c)))
+               = existsb (acc_b val) (filter (en_b h) (c_drv c))).
+  { apply existsb_perm. apply filter_perm. apply Permutation_sym. apply Permutation_rev. }
   destruct (existsb (acc_b val) (filter (en_b h) (c_drv c))) eqn:Hx.
-  - simpl. symmetry. apply (loop_accept val h); exact Hx.
-  - rewrite (loop_reject val h _ _ Hx). simpl.
+  - simpl. symmetry. apply (loop_accept val h). rewrite Ex. reflexivity.
+  - rewrite (loop_reject val h _ _ Ex). simpl.
+    rewrite filter_rev_own, map_rev, last_rev_hd.
     destruct (filter (en_b h) (c_drv c)); reflexivity.
 Qed.
 
+Lemma rev_perm : forall c, Permutation (rev (c_drv c)) (c_drv c).
+Proof. intro c. apply Permutation_sym. apply Permutation_rev. Qed.
+
 Lemma spec_under_in_possible : forall c a h, In (spec_under c a h) (possible c a h).
 Proof.
-  intros. rewrite spec_under_canonical. apply miss_in_possible. apply Permutation_refl.
+  intros. rewrite spec_under_canonical. apply miss_in_possible. apply rev_perm.
 Qed.
 
 Lemma spec_under_valid : forall c a h, is_nil (spec_under c a h) = spec_valid c a h.
 Proof.
-  intros. rewrite spec_under_canonical. apply miss_valid. apply Permutation_refl.
+  intros. rewrite spec_under_canonical. apply miss_valid. apply rev_perm.
 Qed.
 
 (** under the [unambiguous] guard every order gives the spec's error *)
